@@ -373,10 +373,9 @@ fn random_layout(rng: &mut Rng, n: usize, ic: u8) -> Layout {
     }
 }
 
-/// C03 (mode "c03") and C11 (mode "c11"): archives from other writers + fixtures + library-written
-pub fn drive_files(seed: u64, tier: &str, stim: Option<&str>, mode: &str, out: &mut Out) {
-    let mut rng = Rng::new(seed ^ 0x46494c45);
-    let mut ctx = Ctx::new();
+/// archives from other writers (TLC layouts, random layouts), the Go fixtures, and -- for "c11" / "c20" --
+/// library-written archives with real leaf spill
+pub fn collect_files(rng: &mut Rng, seed: u64, tier: &str, stim: Option<&str>, mode: &str) -> Vec<(Vec<u8>, Option<Value>, bool)> {
     let mut files: Vec<(Vec<u8>, Option<Value>, bool)> = Vec::new(); // bytes, exp_tiles, with_data
     if let Some(path) = stim {
         let text = std::fs::read_to_string(path).expect("stimuli");
@@ -388,14 +387,14 @@ pub fn drive_files(seed: u64, tier: &str, stim: Option<&str>, mode: &str, out: &
             let v: Value = serde_json::from_str(line).expect("stimulus");
             let ic = 1 + ((i / stride as usize) % 4) as u8;
             // a root that is not the first section must still end inside the first 16 KiB: all sections are tiny here
-            let l = layout_from_stimulus(&v, ic, &mut rng);
+            let l = layout_from_stimulus(&v, ic, rng);
             files.push((assemble(&l), Some(exp_tiles_json(&l)), true));
         }
     }
     let n_big = if tier == "thorough" { 12 } else { 4 };
     for k in 0..n_big {
         let n = if tier == "thorough" && k % 3 == 2 { 4000 + rng.below(3000) as usize } else if k % 2 == 1 { 1500 + rng.below(1000) as usize } else { 50 + rng.below(600) as usize };
-        let l = random_layout(&mut rng, n, 1 + (k % 4) as u8);
+        let l = random_layout(rng, n, 1 + (k % 4) as u8);
         // spread the large files over the trace so that parallel validation chunks are balanced
         let at = files.len() * (k + 1) / (n_big + 1);
         files.insert(at, (assemble(&l), Some(exp_tiles_json(&l)), true));
@@ -410,7 +409,7 @@ pub fn drive_files(seed: u64, tier: &str, stim: Option<&str>, mode: &str, out: &
         }
     }
     // library-written archives with real leaf spill (for the range filter on leaves)
-    if mode == "c11" {
+    if mode == "c11" || mode == "c20" {
         for (n, ic) in [(6000usize, 1u8), (9000, 2), (300, 3)] {
             let ids: Vec<u64> = {
                 let mut v = Vec::new();
@@ -430,6 +429,14 @@ pub fn drive_files(seed: u64, tier: &str, stim: Option<&str>, mode: &str, out: &
             }
         }
     }
+    files
+}
+
+/// C03 (mode "c03") and C11 (mode "c11")
+pub fn drive_files(seed: u64, tier: &str, stim: Option<&str>, mode: &str, out: &mut Out) {
+    let mut rng = Rng::new(seed ^ 0x46494c45);
+    let mut ctx = Ctx::new();
+    let files = collect_files(&mut rng, seed, tier, stim, mode);
     for (fi, (bytes, exp, with_data)) in files.iter().enumerate() {
         let f = ctx.dissect(bytes);
         if f.get("undissectable").is_some() {
